@@ -196,6 +196,7 @@ def read_wcs_from_header(header):
     wcs_info['NAXIS'] = header.get('NAXIS', 0)
     # date keyword?
     # wcs_info['DATEOBS'] = header.get('DATE-OBS', 'DATEOBS')
+    wcs_info['LONPOLE'] = header.get("LONPOLE", None)
     wcs_info['EQUINOX'] = header.get("EQUINOX", None)
     wcs_info['EPOCH'] = header.get("EPOCH", None)
     wcs_info['DATEOBS'] = header.get("MJD-OBS", header.get("DATE-OBS", None))
@@ -432,8 +433,10 @@ def fitswcs_nonlinear(header):
     if sky_axes:
         phip, lonp = [wcs_info['CRVAL'][i] for i in sky_axes]
         # TODO: write "def compute_lonpole(projcode, l)"
-        # Set a defaul tvalue for now
-        thetap = 180
+        # Use the LONPOLE card when the header has one; set a default value otherwise
+        thetap = wcs_info.get('LONPOLE')
+        if thetap is None:
+            thetap = 180
         n2c = astmodels.RotateNative2Celestial(phip, lonp, thetap, name="crval")
         transforms.append(n2c)
     if transforms:
